@@ -474,7 +474,10 @@ def known_stale_cause(sc, i):
     cached, changed_imports, stale_dependents = set(), set(), set()
     for st in sc['steps'][:i]:
         if st['op'] == 'metadata':
-            loaded_any = True          # the import lists are read (once) by load_metadata
+            # an explicit refresh re-reads every import list and empties the cache: the recorded root causes cannot
+            # explain anything that was cached or changed before it
+            loaded_any = True
+            cached, changed_imports, stale_dependents = set(), set(), set()
         elif st['op'] == 'load':
             loaded_any = True
             cached |= closure(st['name'], imports)
@@ -895,6 +898,16 @@ def scen_files():
     out.append({'label': 'import-of-import-changes-signature', 'tree': syn_tree(), 'steps': [
         S_load('t5'), S_write('t1', T1_V1),
         S_load('t5', cmp=True, mech='changed-file-not-reread:dependent-keeps-items-parsed-against-old-import', **fc)]})
+    # after an explicit refresh of the metadata nothing parsed before may be served (the refresh empties the cache)
+    out.append({'label': 'import-changes-signature-then-refresh', 'tree': syn_tree(), 'steps': [
+        S_load('t2'), S_write('t1', T1_V1), {'op': 'metadata'},
+        S_load('t2', cmp=True, mech='stale-content-served-after-metadata-refresh', **fc)]})
+    out.append({'label': 'import-of-import-changes-signature-then-refresh', 'tree': syn_tree(), 'steps': [
+        S_load('t5'), S_write('t1', T1_V1), {'op': 'metadata'},
+        S_load('t5', cmp=True, mech='stale-content-served-after-metadata-refresh', **fc)]})
+    out.append({'label': 'import-list-changes-then-refresh', 'tree': syn_tree(), 'steps': [
+        S_load('t2'), S_write('t2', T2_V1), {'op': 'metadata'},
+        S_load('t2', cmp=True, mech='stale-content-served-after-metadata-refresh', **fc)]})
     out.append({'label': 'import-list-changes', 'tree': syn_tree(), 'steps': [
         S_load('t2'), S_write('t2', T2_V1), S_load('t2', cmp=True, mech='changed-file-not-reread:import-list-of-changed-file-stale', **fc)]})
     out.append({'label': 'file-added', 'tree': syn_tree(), 'steps': [
